@@ -711,6 +711,13 @@ class Super:
                     n.bound_closure = cf
             # closures handed to a higher-order callee (crate wrapper or std)
             cls = [P.fns[c] for c in ci.get("closures", []) if c in P.fns]
+            if not expanded and not too_deep and kind in ("std", "crate", "virtual"):
+                # closures that reach this call as *values* through a generic helper (the callee's type argument is then
+                # just the helper's type parameter): found by resolving the arguments
+                for a in ci["term"]["args"]:
+                    v = strip(self.resolve_op(ctx, a))
+                    if isinstance(v, tuple) and v and v[0] == "env" and v[1] in P.fns and P.fns[v[1]] not in cls:
+                        cls.append(P.fns[v[1]])
             if not expanded and cls and not too_deep:
                 mn, mx = HIGHER_ORDER.get(ci["npath"], (0, None))
                 if ci["npath"] not in HIGHER_ORDER:
